@@ -38,6 +38,8 @@ pub enum Req {
     CalcOverflow,
     Explain(u16),
     ExplainMissing,
+    /// a ticker the ledger does not contain (the error lists the tickers that have disposals)
+    ExplainUnknownTicker,
     ExplainBadDate,
     Fx { cur: u8, year: i32, month: u32 },
     FxBad(u8),
@@ -75,6 +77,7 @@ fn arb_req() -> BoxedStrategy<Req> {
         1 => Just(Req::CalcOverflow),
         4 => any::<u16>().prop_map(Req::Explain),
         1 => Just(Req::ExplainMissing),
+        2 => Just(Req::ExplainUnknownTicker),
         1 => Just(Req::ExplainBadDate),
         3 => (0u8..6, 2014i32..2028, 1u32..13).prop_map(|(cur, year, month)| Req::Fx { cur, year, month }),
         2 => (0u8..4).prop_map(Req::FxBad),
@@ -216,6 +219,7 @@ fn build(s: &Session, order: &[usize]) -> Vec<Built> {
                 }
             }
             Req::ExplainMissing => (tool_call(id, "explain_matching", json!({"transactions": dsl, "disposal_date": "1987-10-19", "ticker": "AAA"})), Some(false), false),
+            Req::ExplainUnknownTicker => (tool_call(id, "explain_matching", json!({"transactions": dsl, "disposal_date": "2020-01-01", "ticker": "NOSUCH"})), Some(false), false),
             Req::ExplainBadDate => (tool_call(id, "explain_matching", json!({"transactions": dsl, "disposal_date": "19/10/1987", "ticker": "AAA"})), Some(false), false),
             Req::Fx { cur, year, month } => {
                 let code = FX_CURS[*cur as usize % FX_CURS.len()];
